@@ -96,6 +96,11 @@ func BuildPool() []*Item {
 	}
 	runs := &gen.Image{W: 40, H: 3, C: 1, P: 8, Class: "runs", Seed: 3}
 	add("jpegls-runs", "jpegls", must(jlsl.Encode(runs.Bytes(), 40, 3, 1, 8)), inf(runs), "jpegls", "jpegls-near", "codec:80")
+	// A flat 65535 x 2 image written by hand (the encoder is not needed for it): two lines of
+	// run mode, "1" bits only, so that the run index climbs to the end of the J table.
+	wide := []byte{0xFF, 0xD8, 0xFF, 0xF7, 0x00, 0x0B, 0x08, 0x00, 0x02, 0xFF, 0xFF, 0x01, 0x01, 0x11, 0x00,
+		0xFF, 0xDA, 0x00, 0x08, 0x01, 0x01, 0x00, 0x00, 0x00, 0x00, 0xFF, 0x7F, 0xFF, 0x7F, 0xFF, 0x7F, 0xFF, 0x7F, 0xFF, 0xD9}
+	add("jpegls-wide-flat", "jpegls", wide, dec.Info{W: 65535, H: 2, BA: 8, BS: 8, SPP: 1}, "jpegls", "jpegls-near", "codec:80")
 	// JPEG 2000
 	j2 := func(name string, im *gen.Image, f func(p *jpeg2000.EncodeParams)) {
 		p := jpeg2000.DefaultEncodeParams(im.W, im.H, im.C, im.P, im.Signed)
@@ -114,6 +119,10 @@ func BuildPool() []*Item {
 	j2("j2k-roi", noise(12, 12, 1, 8, 45), func(p *jpeg2000.EncodeParams) {
 		p.ROI = &jpeg2000.ROIParams{X0: 2, Y0: 2, Width: 5, Height: 5, Shift: 3}
 	})
+	// sparse and smooth content with many bit-planes: code-blocks whose clean-up passes still
+	// have decisions to make after the first planes (dense noise saturates the significance map)
+	j2("j2k-sparse", &gen.Image{W: 16, H: 16, C: 1, P: 8, Class: "sparse", Seed: 47}, func(p *jpeg2000.EncodeParams) { p.NumLevels = 0 })
+	j2("j2k-gradient12", &gen.Image{W: 24, H: 16, C: 1, P: 12, Class: "gradient", Seed: 48}, func(p *jpeg2000.EncodeParams) { p.NumLevels = 1 })
 	j2("j2k-part2mct", noise(8, 8, 2, 8, 46), func(p *jpeg2000.EncodeParams) {
 		p.NumLevels = 0
 		p.MCTBindings = []jpeg2000.MCTBindingParams{{AssocType: 2, ComponentIDs: []uint16{0, 1}, Matrix: [][]float64{{1, 0}, {0, 1}}, Inverse: [][]float64{{1, 0}, {0, 1}}, Offsets: []int32{5, -5}, ElementType: 1}}
